@@ -12,7 +12,7 @@ import re
 from urllib.parse import unquote, urlsplit
 
 from ..models import routing_ref as R
-from ..monitors.reach import Reach
+from ..monitors.reach import Reach, opt
 
 ID = "C03"
 RULE = (
@@ -395,11 +395,11 @@ def run(shard, rec, rng):
     spy = VESpy()
     spy.install()
     reach = Reach(rec, {
-        "StateMachineMatcher.match": MM.StateMachineMatcher.match,
-        "StateMachineMatcher.add": MM.StateMachineMatcher.add,
-        "StateMachineMatcher.update": MM.StateMachineMatcher.update,
-        "Rule._parse_rule": RR.Rule._parse_rule,
-        "Rule.compile": RR.Rule.compile,
+        "StateMachineMatcher.match": opt(lambda: MM.StateMachineMatcher.match),
+        "StateMachineMatcher.add": opt(lambda: MM.StateMachineMatcher.add),
+        "StateMachineMatcher.update": opt(lambda: MM.StateMachineMatcher.update),
+        "Rule._parse_rule": opt(lambda: RR.Rule._parse_rule),
+        "Rule.compile": opt(lambda: RR.Rule.compile),
     })
     cfg = TIERS[shard["_tier"]]
     for i in range(cfg["maps"]):
